@@ -33,12 +33,14 @@ TimeFieldMap(fs, t, pre) ==
     ELSE LET f == CHOOSE x \in fs : TRUE
          IN (pre \o f :> t[FieldIndex(f)]) @@ TimeFieldMap(fs \ {f}, t, pre)
 
+\* the END may spell its date differently from the start (e.g. {year2}{doy} ... {end_year}{end_month}{end_day})
+EDate(tpl) == IF "edate" \in DOMAIN tpl THEN tpl.edate ELSE tpl.date
 EndFieldSet(tpl) == IF tpl.ek = "none" THEN {} ELSE IF tpl.ek = "full" THEN StartTimeFields(tpl) ELSE tpl.ep
 
 \* every temporal placeholder of the template with the number get_filename must write
 Fields(tpl, s, e) ==
     DateFields(tpl.date, s, "") @@ TimeFieldMap(StartTimeFields(tpl), s, "")
-    @@ (IF tpl.ek = "full" THEN DateFields(tpl.date, e, "end_") ELSE <<>>)
+    @@ (IF tpl.ek = "full" THEN DateFields(EDate(tpl), e, "end_") ELSE <<>>)
     @@ TimeFieldMap(EndFieldSet(tpl), e, "end_")
 
 \* ---- reading a name back -------------------------------------------------
@@ -59,7 +61,7 @@ Superior(t, f) == CASE f = "hour" -> SuccDay(t) [] f = "minute" -> SuccHour(t) [
 EndOf(tpl, s, e) ==
     IF tpl.ek = "none" THEN <<>>
     ELSE IF tpl.ek = "full"
-         THEN LET d == ParsedDate(tpl.date, e)
+         THEN LET d == ParsedDate(EDate(tpl), e)
               IN [i \in 1..7 |-> IF i <= 3 THEN d[i] ELSE IF i <= 3 + tpl.nt THEN e[i] ELSE 0]
     ELSE LET st == StartOf(tpl, s)
              comb == [i \in 1..7 |-> IF i >= 4 /\ TimeFields[i - 3] \in tpl.ep THEN e[i] ELSE st[i]]
